@@ -262,6 +262,7 @@ def loadTopic (r : TopicRow) : Topic :=
   -- the owner is the last subscriber (in load order) whose effective mode has O
   let owner := live.foldl (fun o s => if isOwner (s.want &&& s.given) then s.user else o) ""
   { name := r.name, lastId := r.seq, delId := r.del, owner := owner, auth := r.auth, anon := r.anon, pub := r.pub, tr := r.tr,
-    tags := r.tags, perUser := perUser, hasSupd := true, isChan := r.chan }
+    tags := r.tags, perUser := perUser, hasSupd := true, isChan := r.chan,
+    readOnly := r.state = 10 }      -- the topic of a suspended owner is read-only, in memory as in the store
 
 end Tinode.World
